@@ -56,6 +56,9 @@ type VC struct {
 	obls      []*Obligation
 	nextCell  int
 	nAlloc    int
+	localObjs  map[*Term]*localObj // objects allocated by the function under verification that have not escaped
+	localOrder []*Term
+	escWhy     string
 	A0        *Term
 	allocBase *Term            // current symbolic allocation base (A0, or a fresh base after a loop cut)
 	allocBases map[*Term]bool
@@ -863,6 +866,7 @@ func (vc *VC) isFreshRef(t *Term) bool {
 func (vc *VC) loopWrites(fx *FuncCtx, L *Loop, st *State, fr *Frame) (cells []int, keys []string, freshOnly map[string]bool) {
 	vc.dry++
 	savedCell, savedAlloc := vc.nextCell, vc.nAlloc
+	lmark := vc.markLocals()
 	savedDW := vc.dryWrites
 	vc.dryWrites = nil
 	s0 := st.clone()
@@ -879,6 +883,7 @@ func (vc *VC) loopWrites(fx *FuncCtx, L *Loop, st *State, fr *Frame) (cells []in
 	exits, backs := vc.execRegion(fx, L, s0, f, ephi)
 	vc.dry--
 	vc.nextCell, vc.nAlloc = savedCell, savedAlloc
+	vc.resetLocals(lmark)
 	notFresh := map[string]bool{}
 	for _, w := range vc.dryWrites {
 		if w.base == nil {
@@ -1198,6 +1203,7 @@ func (vc *VC) inferUnchanged(fx *FuncCtx, L *Loop, st *State, fr *Frame, ephi ma
 		mark := len(vc.assumes)
 		gmark := len(vc.gfacts)
 		savedCell, savedAlloc, savedSeq := vc.nextCell, vc.nAlloc, vc.deferSeq
+		lmark := vc.markLocals()
 		savedCalls := map[string]int{}
 		for k, v := range vc.callSeq {
 			savedCalls[k] = v
@@ -1287,6 +1293,7 @@ func (vc *VC) inferUnchanged(fx *FuncCtx, L *Loop, st *State, fr *Frame, ephi ma
 		vc.assumes = vc.assumes[:mark]
 		vc.gfacts = vc.gfacts[:gmark]
 		vc.nextCell, vc.nAlloc, vc.deferSeq = savedCell, savedAlloc, savedSeq
+		vc.resetLocals(lmark)
 		vc.callSeq = savedCalls
 		for k := range fx.locals {
 			delete(fx.locals, k)
